@@ -263,7 +263,7 @@ pub fn check_comps(c: &Comps, rng: &mut Rng, rep: &mut Report, replay: Value) {
 }
 
 pub fn random(ctx: &Ctx) -> Report {
-    let n = ctx.n(100_000, 10_000_000);
+    let n = ctx.n(2_000_000, 1_000_000_000);
     par_cases(ctx, "random", n, ctx.secs(20, 400), |i, rng, rep| {
         let c = gen_comps(rng);
         if i < 3 {
